@@ -11,7 +11,7 @@ Definition view (w:world) (hd:handle) : xstate :=
 (* writing a file-model state back: bytes to the disk, the rest to the handle *)
 Definition write_back (w:world) (i:positive) (hd:handle) (x:xstate) : world :=
   {| w_in := w_in w; w_out := w_out w; w_disk := disk_set (w_disk w) (h_path hd) (content (xs x));
-     w_handles := handle_set (w_handles w) i {| h_path := h_path hd; h_pos := pos (xs x); h_mode := h_mode hd; h_closed := xclosed x |}; w_nexth := w_nexth w |}.
+     w_handles := handle_set (w_handles w) i {| h_path := h_path hd; h_pos := pos (xs x); h_mode := h_mode hd; h_closed := xclosed x |}; w_nexth := w_nexth w; w_mods := w_mods w |}.
 
 (* ---------- one command on a handle = one xstep ---------- *)
 Theorem file_command_is_xstep n ip h w sp i o hd : handle_get (w_handles w) i = Some hd ->
@@ -45,7 +45,7 @@ Proof. intros Hf. unfold exec. cbn [bs doio_body bind run force wstep]. rewrite 
 Theorem open_gives_a_new_handle n ip h w sp p m s : Files.fopen m (disk_get (w_disk w) p) = Some s ->
   exec (S (S n)) ip h w (VIO (IOOpen sp p m)) =
   Done h {| w_in := w_in w; w_out := w_out w; w_disk := disk_set (w_disk w) p (content s);
-            w_handles := (w_nexth w, {| h_path := p; h_pos := pos s; h_mode := m; h_closed := false |}) :: w_handles w; w_nexth := Pos.succ (w_nexth w) |}
+            w_handles := (w_nexth w, {| h_path := p; h_pos := pos s; h_mode := m; h_closed := false |}) :: w_handles w; w_nexth := Pos.succ (w_nexth w); w_mods := w_mods w |}
          (inl (VFun (FFile (w_nexth w)))) 0.
 Proof. intros Hf. unfold exec. cbn [bs doio_body bind run force wstep]. rewrite Hf. reflexivity. Qed.
 (* what opening does to the bytes: the open-mode theorems of FilesProofs apply verbatim (open_keeps, open_resets, open_append_at_end) *)
